@@ -19,6 +19,7 @@ from ..monitor import Patch, call_real, describe_exc, reach
 
 ID = 'C03'
 LEVEL = 'exploration'
+DEBUG_TOGGLE = True  # runner flips the library debug flag every 97 monitored executions
 TECHNIQUE = 'runtime monitoring: purity hooks (deep encoding of every argument before/after each call of GridWorld.functional_* and of every registered reward/termination/observation/visibility function), behavioural alias detection by scrambling one side through every mutable handle and re-encoding the other, ask-perturb-ask-again monitors for the memoised helpers, copy equality/hash checks'
 LEVEL_TEXT = ('Every monitored call must leave the deep encoding of its state arguments unchanged; after functional_step the returned '
               'next state is scrambled through every public mutable handle (cells replaced, door statuses flipped, objects '
@@ -405,6 +406,8 @@ def install_registry_purity(ctx, patch):
 
 
 def run(ctx):
+    from .. import custom_objects
+    custom_objects.enable(cleats=True)  # user-defined object types join the generators' pool (flags, not types, must decide)
     with Patch() as patch, reach(ctx, [fast_copy_mod.fast_copy, transition_fs.transition_with_copy, reward_fs.dijkstra,
                                        reward_fs.getting_closer_shortest_path]):
         install_registry_purity(ctx, patch)
@@ -496,6 +499,8 @@ def run(ctx):
 
 
 def replay(ctx, kind, payload):
+    from .. import custom_objects
+    custom_objects.enable(cleats=True)
     rng = gen.rng_for('replay')
     with Patch() as patch:
         install_registry_purity(ctx, patch)
